@@ -56,6 +56,47 @@ def returncode_check(fn):
     return False
 
 
+def joined(seg, utils_src):
+    """Is the exception of a job kept until all the jobs are done? Recognised shape (anything else: False):
+       errors = []; Parallel(...)(delayed(utils.catch_errors(<job>, errors))(...) for ...); if errors: raise errors[0]
+       with utils.catch_errors returning a wrapper whose body is `if errors: return None` then a try/except Exception that
+       appends the exception to `errors`."""
+    # 1. the wrapper in utils.py
+    ut = ast.parse(utils_src)
+    try:
+        ce = func(ut, 'catch_errors')
+    except TranslationError:
+        return False
+    inner = [n for n in ce.body if isinstance(n, ast.FunctionDef)]
+    if len(inner) != 1:
+        return False
+    w = inner[0]
+    tries = [n for n in w.body if isinstance(n, ast.Try)]
+    if len(tries) != 1 or tries[0].finalbody or len(tries[0].handlers) != 1:
+        return False
+    h = tries[0].handlers[0]
+    if not (isinstance(h.type, ast.Name) and h.type.id == 'Exception' and h.name):
+        return False
+    appends = any(isinstance(m, ast.Call) and isinstance(m.func, ast.Attribute) and m.func.attr == 'append'
+                  and isinstance(m.func.value, ast.Name) and m.func.value.id == 'errors'
+                  and any(isinstance(a, ast.Name) and a.id == h.name for a in m.args) for b in h.body for m in ast.walk(b))
+    reraises = any(isinstance(m, ast.Raise) for b in h.body for m in ast.walk(b))
+    if not appends or reraises:
+        return False
+    # 2. segment(): the job is wrapped, and the first error is raised AFTER the Parallel call, at the same nesting level
+    for body in [n.body for n in ast.walk(seg) if hasattr(n, 'body') and isinstance(getattr(n, 'body'), list)]:
+        for k, st in enumerate(body):
+            if contains_call(st, 'Parallel') and not isinstance(st, (ast.With, ast.Try, ast.If, ast.For, ast.While, ast.FunctionDef)):
+                wrapped = any(isinstance(m, ast.Call) and isinstance(m.func, ast.Attribute) and m.func.attr == 'delayed'
+                              and m.args and isinstance(m.args[0], ast.Call) and isinstance(m.args[0].func, ast.Attribute)
+                              and m.args[0].func.attr == 'catch_errors' for m in ast.walk(st))
+                nxt = body[k + 1] if k + 1 < len(body) else None
+                raised = (isinstance(nxt, ast.If) and isinstance(nxt.test, ast.Name) and nxt.test.id == 'errors'
+                          and any(isinstance(m, ast.Raise) for m in nxt.body))
+                return bool(wrapped and raised)
+    return False
+
+
 def translate_ag(src):
     tree = ast.parse(src)
     fn = func(tree, '_segment_single')
@@ -102,7 +143,8 @@ def translate_ag(src):
                 if contains_call(it.context_expr, 'NamedTemporaryFile'):
                     if any(contains_call(b, 'Parallel') for b in n.body):
                         ctx = True
-    return dict(before=before, after=after, pipefail=pipefail, checks=checks, fin=fin, ctx=ctx, stages=stages)
+    utils_src = open(os.path.join(REPO, 'wordseg/utils.py')).read()
+    return dict(before=before, after=after, pipefail=pipefail, checks=checks, fin=fin, ctx=ctx, stages=stages, joined=joined(seg, utils_src))
 
 
 def translate_dpseg(src):
@@ -126,7 +168,8 @@ def translate_dpseg(src):
     for k in par[0].keywords:
         if k.arg not in ('n_jobs', 'verbose', 'backend'):
             raise TranslationError('joblib.Parallel keyword not understood: ' + str(k.arg))
-    return dict(checks=checks, ctx=ctx, threads=threads)
+    utils_src = open(os.path.join(REPO, 'wordseg/utils.py')).read()
+    return dict(checks=checks, ctx=ctx, threads=threads, joined=joined(seg, utils_src))
 
 
 def b(x):
@@ -140,10 +183,10 @@ def main():
    pipeline stages: %s *)
 From WS Require Import Base.Py AG.Proc.
 Definition ag_cfg_src : ag_cfg :=
-  {| ag_before := %d; ag_after := %d; ag_pipefail := %s; ag_checks := %s; ag_finally := %s; ag_grammar_ctx := %s |}.
-Definition dp_cfg_src : dp_cfg := {| dp_checks := %s; dp_tmp_ctx := %s; dp_threads := %s |}.
-''' % (' | '.join(ag['stages']).replace('*)', '* )'), ag['before'], ag['after'], b(ag['pipefail']), b(ag['checks']), b(ag['fin']), b(ag['ctx']),
-       b(dp['checks']), b(dp['ctx']), b(dp['threads']))
+  {| ag_before := %d; ag_after := %d; ag_pipefail := %s; ag_checks := %s; ag_finally := %s; ag_grammar_ctx := %s; ag_joined := %s |}.
+Definition dp_cfg_src : dp_cfg := {| dp_checks := %s; dp_tmp_ctx := %s; dp_threads := %s; dp_joined := %s |}.
+''' % (' | '.join(ag['stages']).replace('*)', '* )'), ag['before'], ag['after'], b(ag['pipefail']), b(ag['checks']), b(ag['fin']), b(ag['ctx']), b(ag['joined']),
+       b(dp['checks']), b(dp['ctx']), b(dp['threads']), b(dp['joined']))
     os.makedirs(os.path.dirname(OUT), exist_ok=True)
     if not os.path.exists(OUT) or open(OUT).read() != text:
         open(OUT, 'w').write(text)
